@@ -21,6 +21,8 @@ def native_phase(run, pid, tier, seed, stride):
           "batches", flush=True)
     validated = 0
     for status, res in run_pool("vx.nx", "work", rotate(units, seed)):
+        if status == "skipped":
+            continue
         if status != "ok":
             run.report({"signature": {"kind": "worker-exception"}, "what": f"harness worker failed: {res}", "case": {}})
             continue
@@ -104,6 +106,8 @@ def replay_kx(pid, path, oracles, opts_extra=None):
     obs = []
     for _ in range(2):
         status, module = kx.generate(Problem(asg, fmts), kx.KINDS3)
+        if status == "skipped":
+            continue
         if status != "ok":
             obs.append((status, repr(module)))
             continue
